@@ -337,28 +337,39 @@ func (c *Ctx) MinimiseViolation(v *Violation) {
 	}
 	in := Unquote(v.Case.Input)
 	budget := 4000
+	if len(in) > 2000 {
+		budget = 200 // long inputs (nesting, repetition families) are not worth thousands of re-executions
+	}
 	changed := true
 	for changed && budget > 0 {
 		changed = false
-		var cands [][]byte
-		if s.Minimise != nil {
-			cands = s.Minimise(in)
-		} else {
-			for n := len(in) / 2; n >= 1; n /= 2 {
-				for i := 0; i+n <= len(in); i += n {
-					cands = append(cands, append(append([]byte{}, in[:i]...), in[i+n:]...))
-				}
-			}
-		}
-		for _, cand := range cands {
+		try := func(cand []byte) bool {
 			budget--
 			if budget <= 0 {
-				break
+				return true
 			}
 			if len(cand) < len(in) && c.failsSame(s, cand, v.Case.Args, v.Clause, v.Site) {
 				in = cand
 				changed = true
-				break
+				return true
+			}
+			return false
+		}
+		if s.Minimise != nil {
+			for _, cand := range s.Minimise(in) {
+				if try(cand) {
+					break
+				}
+			}
+		} else {
+			// candidates are produced one at a time: a long input has a great many of them
+		outer:
+			for n := len(in) / 2; n >= 1; n /= 2 {
+				for i := 0; i+n <= len(in); i += n {
+					if try(append(append([]byte{}, in[:i]...), in[i+n:]...)) {
+						break outer
+					}
+				}
 			}
 		}
 	}
